@@ -19,7 +19,7 @@ ASSUMPTIONS = ['receiver package lists every chemical of the inlets (stated prec
                'flows are finite and non-negative', 'energy_balance=True only drawn for l/g inlets at 280-400 K',
                'Stream.sum / a+b create the result on the current settings thermo, which the check sets to the receiver package']
 REQUIRED_CELLS = {'quick': ['mix:recv=S', 'mix:recv=M', 'mix:multi', 'mix:xpkg', 'mix:self', 'mix:n=0', 'mix:n=1',
-                            'mix:n>=2', 'split:scalar', 'split:array', 'split:xpkg', 'split:src=M'],
+                            'mix:n>=2', 'mix:repeated-inlet', 'mix:receiver-repeated', 'split:scalar', 'split:array', 'split:xpkg', 'split:src=M'],
                   'thorough': []}
 
 TOL = 1e-12
@@ -38,10 +38,25 @@ def skey(spec):
     return [spec['kind'], spec['pkg'], spec['phases'], zero_pattern(spec)]
 
 
+FEW = ('Water', 'Ethanol')
+
+
 def _specs_for(ch, tag, pkgs, eb):
     if eb:
-        return vs.draw_spec(ch, tag, pkgs, phases=('l', 'g'), T=(280., 400.), P=(1e4, 1e7))
-    return vs.draw_spec(ch, tag, pkgs)
+        sp = vs.draw_spec(ch, tag, pkgs, phases=('l', 'g'), T=(280., 400.), P=(1e4, 1e7))
+    else:
+        sp = vs.draw_spec(ch, tag, pkgs)
+    # Two hidden degrees of freedom of cross-package transfers: (a) inlets of different packages carrying exactly
+    # the same few chemicals (their CAS tuples then differ only in order), (b) the insertion order of the stored
+    # sparse entries (flows written in another sequence).
+    mode = ch.choice(f'{tag}.mode', ['full', 'full', 'few', 'reordered'])
+    names = chem.PACKAGES[sp['pkg']]
+    if mode == 'few':
+        keep = [i for i, nme in enumerate(names) if nme in FEW]
+        sp['flows'] = [[(v if v else 1.0) if i in keep else 0.0 for i, v in enumerate(row)] for row in sp['flows']]
+    if mode in ('few', 'reordered'):
+        sp['order'] = ch.permutation(f'{tag}.order', len(names))
+    return sp
 
 
 def check_totals(ctx, got, want, site, region, scale=None):
@@ -69,14 +84,24 @@ def prop_mix(ch, ctx):
     if op == 'iadd': self_idx = 0
     all_pkgs = list(chem.PACKAGES)
     specs = []
+    dup_of = []
     for i in range(n):
+        # the same stream object may be listed several times (the doctest of Stream.sum does so), incl. the receiver
+        d = ch.choice(f'in{i}.dup', [-1, -1, -1] + list(range(i))) if (i > 0 and op in ('mix_from', 'sum')) else -1
+        if d >= 0 and i != self_idx:
+            dup_of.append(d); specs.append(specs[d]); continue
+        dup_of.append(-1)
         pk = [recv_pkg] if i == self_idx else all_pkgs
         specs.append(_specs_for(ch, f'in{i}', pk, eb))
     if self_idx < 0 and op in ('mix_from',):
         rspec = _specs_for(ch, 'recv', [recv_pkg], eb)
     else:
         rspec = None
-    inlets = [vs.build(sp) for sp in specs]
+    inlets = []
+    for i, sp in enumerate(specs):
+        inlets.append(inlets[dup_of[i]] if dup_of[i] >= 0 else vs.build(sp))
+    if any(d >= 0 for d in dup_of): ctx.cell('mix:repeated-inlet')
+    if self_idx >= 0 and sum(1 for s in inlets if s is inlets[self_idx]) > 1: ctx.cell('mix:receiver-repeated')
     th = chem.package(recv_pkg)
     tmo.settings.set_thermo(th)
     if self_idx >= 0:
@@ -120,7 +145,7 @@ def prop_mix(ch, ctx):
         if vs.by_phase(s) != b:
             ctx.fail(f'{site}|{region}|inlet-modified', f'inlet {k} changed by mixing')
     if nonempty >= 2 or self_idx >= 0 or (nonempty and (multi or xpkg)):
-        ctx.nontriv(['mix', op, eb, conserve, self_idx, [vs.skey(s) if False else skey(s) for s in specs],
+        ctx.nontriv(['mix', op, eb, conserve, self_idx, dup_of, [skey(s) for s in specs],
                      skey(rspec) if rspec else None])
 
 
